@@ -47,8 +47,14 @@ def programs():
     def p_silu(x):
         return x * jax.nn.sigmoid(x) + jnp.maximum(jnp.transpose(x, (0, 2, 1)), 0.0).transpose((0, 2, 1))
 
+    def p_fanout(x):
+        # four leaves that are ONE value after optimisation (three aliases of it)
+        y = jnp.tanh(x)
+        return y, jnp.transpose(jnp.transpose(y, (0, 2, 1)), (0, 2, 1)), y.reshape(-1).reshape(y.shape), jnp.swapaxes(jnp.swapaxes(y, 1, 2), 1, 2)
+
     spec3 = [(2, 3, 4)]
     progs = {
+        "fanout_one_value": (p_fanout, spec3, {}),
         "tchain": (p_tchain, spec3, {}),
         "treduce": (p_treduce, spec3, {}),
         "reshape_cast": (p_reshape_cast, spec3, {}),
